@@ -897,6 +897,8 @@ class Engine:
                 raise Unsupported("dict literal with symbolic key")
             d.items[ck] = (z3.BoolVal(True), self.eval(v, frame))
         if not d.items:
+            if getattr(frame.contract, "concrete_dicts", False):
+                return d          # shape-bounded mode: every key is a concrete string, the dict stays enumerated
             return self.world.ext.new_map(self)
         return d
 
